@@ -105,7 +105,9 @@ Definition env_arrive (st : state) (e : event) : state :=
   end.
 
 (* ---- the addon *)
-Definition killable (f : flow) : bool := f_live f && negb (f_error f).
+(* Flow.killable: live and error is not the KILLED error; kill() is the only source of that error and it
+   clears live, so killable coincides with live *)
+Definition killable (f : flow) : bool := f_live f.
 Definition apply_kill (f : flow) (a : action) : flow :=
   if kill a && killable f then mkFlow (messages f) true false else f.
 Definition apply_edit (f : flow) (a : action) : flow :=
